@@ -14,6 +14,7 @@ R11.2  interpreter: every stack of length <= 2 over a small alphabet and every p
        satisfaction, for every script of C13's family
 R11.3  PSBT satisfier preimage look-ups with preimages of length 0, 31, 32, 33
 R11.4  the parser's pre-check bounds nesting: depth 402 accepted, 403 refused, before any tree is built
+R11.7  spent-output look-ups of the finalizer / sighash_msg over utxo presence x previous-transaction size x vout
 R11.6  script decoder: every single-instruction mutation of every family script and all tiny scripts (props/decoder.py)
 R11.5  recursion reachable from the text / script / PSBT entry points is confined to the audited functions whose depth
        is bounded by the pre-check (call-graph SCCs over MIR)"""
@@ -275,6 +276,60 @@ def check_lookups(chk, F):
                 chk.fail(R, "unanalysable:" + key, "unanalysable: %s" % e, where=e.where, kind="unanalysable")
 
 
+# ---- R11.7 spent-output look-ups --------------------------------------------------------------------------------
+
+def check_utxo_lookups(chk, F):
+    R = "R11.7"
+    chk.rule(R, "the finalizer's spent-output look-ups (get_utxo, get_scriptpubkey, prevouts) return an error value, never "
+                "panic, for every combination of witness_utxo / non_witness_utxo presence, number of outputs of the "
+                "previous transaction (0..2) and previous_output.vout (0, 1, 2, u32::MAX), for every in-range input index")
+    from ..builtins import deref
+    fns = {n: F.fn(n, file="psbt/finalizer.rs") for n in ("get_utxo", "get_scriptpubkey", "prevouts")}
+    for v in fns.values():
+        chk.saw(v)
+    m = Machine(F, strict=True, max_depth=40)
+
+    def txout(tag):
+        return Adt("bitcoin::TxOut", "TxOut", {"script_pubkey": Term("spk", tag), "value": Term("value", tag)})
+
+    def prev_tx(n):
+        return Adt(c14.TX, "Transaction", {"version": Term("v"), "lock_time": Term("lt"), "input": PyVec([]),
+                                           "output": PyVec([txout("prev%d" % i) for i in range(n)])})
+    utxo_shapes = [("none", NONE, NONE), ("witness", some(txout("w")), NONE)]
+    for n in (0, 1, 2):
+        utxo_shapes.append(("prev-tx/%d" % n, NONE, some(prev_tx(n))))
+        utxo_shapes.append(("both/%d" % n, some(txout("w")), some(prev_tx(n))))
+    n_cases = 0
+    for (name, wu, nwu), vout, n_inputs in itertools.product(utxo_shapes, (0, 1, 2, 0xFFFFFFFF), (1, 2)):
+        inputs = []
+        for i in range(n_inputs):
+            inp = c14.mk_input("x%d" % i)
+            inp.fields["witness_utxo"] = wu
+            inp.fields["non_witness_utxo"] = nwu
+            inputs.append(inp)
+        ps = c14.mk_psbt(2, 0, [0] * n_inputs, inputs)
+        for txin in ps.fields["unsigned_tx"].fields["input"].items:
+            txin.fields["previous_output"] = Adt("bitcoin::OutPoint", "OutPoint", {"txid": Term("txid"), "vout": vout})
+        for fname, path in sorted(fns.items()):
+            for idx in (range(n_inputs) if fname != "prevouts" else (None,)):
+                key = "%s|%s|vout=%d" % (fname, name, vout)
+                n_cases += 1
+                try:
+                    r = m.call_path(path, [ps] + ([idx] if idx is not None else []))
+                except Panic as e:
+                    chk.fail(R, key, "%s panics on a PSBT whose input has %s and previous_output.vout = %d: %s"
+                             % (fname, name, vout, e), where="src/psbt/finalizer.rs")
+                    continue
+                except Unsupported as e:
+                    chk.fail(R, "unanalysable:" + key, "unanalysable: %s" % e, where=e.where, kind="unanalysable")
+                    continue
+                want_ok = name.startswith(("witness", "both")) or \
+                    (name.startswith("prev-tx") and vout < int(name.split("/")[1]))
+                chk.obligation(R, (r.variant == "Ok") == want_ok, key, "%s gives %s; a spent output %s" %
+                               (fname, r.variant, "exists" if want_ok else "does not exist"), where="src/psbt/finalizer.rs")
+    chk.floor(R, "cases", n_cases, 150)
+
+
 # ---- R11.4 depth pre-check --------------------------------------------------------------------------------------
 
 def check_depth(chk, F):
@@ -446,3 +501,5 @@ def run(chk):
     if not ONLY or "6" in ONLY:
         from . import decoder
         chk.guard("R11.6", "decoder", decoder.check_decoder_panics, chk, F)
+    if not ONLY or "7" in ONLY:
+        chk.guard("R11.7", "utxo-lookups", check_utxo_lookups, chk, F)
